@@ -24,4 +24,132 @@ theorem restore_save (g : Globals) (h : WF g) :
     (apply Globals.ext' <;> first
       | (intro n; by_cases h1 : n = .float <;> by_cases h2 : n = .int <;> by_cases h3 : n = .len <;>
           simp_all)
-      | simp_all [List.erase_append_right])
+      | simp_all)
+
+theorem WF_set {g : Globals} (h : WF g) (n : Name) (v : Val) : WF (g.set n v) := by
+  obtain ⟨hnd, hm⟩ := h
+  unfold Globals.set Globals.contains
+  cases hc : (g.val n).isSome
+  · have hn : n ∉ g.order := by intro hmem; have := (hm n).mp hmem; simp [hc] at this
+    refine ⟨?_, ?_⟩
+    · simp only [Bool.false_eq_true, ↓reduceIte]
+      exact List.nodup_append.mpr ⟨hnd, by simp, by intro a ha b hb; simp at hb; subst hb; intro e; subst e; exact hn ha⟩
+    · intro k
+      by_cases hk : k = n
+      · subst hk; simp
+      · simp [hk, hm k]
+  · have hn : n ∈ g.order := (hm n).mpr hc
+    refine ⟨by simpa using hnd, ?_⟩
+    intro k
+    by_cases hk : k = n
+    · subst hk; simp [hn]
+    · simp [hk, hm k]
+
+theorem WF_update (g : Globals) (h : WF g) : WF (updateAll mockDict g) := by
+  simp only [updateAll, mockDict, mockNames, List.map, List.foldl]
+  exact WF_set (WF_set (WF_set h _ _) _ _) _ _
+
+theorem update_val (g : Globals) (n : Name) :
+    (updateAll mockDict g).val n =
+      if n = .len then some (.mock .len) else if n = .int then some (.mock .int)
+      else if n = .float then some (.mock .float) else g.val n := by
+  simp [updateAll, mockDict, mockNames, Globals.set]
+
+theorem update_idem (g : Globals) :
+    updateAll mockDict (updateAll mockDict g) = updateAll mockDict g := by
+  apply Globals.ext'
+  · simp [updateAll, mockDict, mockNames, Globals.set, Globals.contains]
+  · intro n
+    rw [update_val, update_val]
+    by_cases h1 : n = .len <;> by_cases h2 : n = .int <;> by_cases h3 : n = .float <;> simp [h1, h2, h3]
+
+theorem setMod_same (σ : Mods) (m : Nat) (g : Globals) : setMod (setMod σ m g) m (σ m) = σ := by
+  funext j; unfold setMod; by_cases h : j = m <;> simp [h]
+
+theorem WF_setMod {σ : Mods} (h : ∀ j, WF (σ j)) (m : Nat) {g : Globals} (hg : WF g) :
+    ∀ j, WF (setMod σ m g j) := by
+  intro j; unfold setMod; by_cases hj : j = m <;> simp [hj, hg, h j]
+
+/-- every (nested, possibly failing) compilation leaves every module exactly as it was and the
+    `finally` block of `mock_builtins` never fails -/
+theorem exec_mods (K : Nat) (p : Prog) : ∀ σ : Mods, (∀ j, WF (σ j)) → (exec K p σ).mods = σ := by
+  induction p with
+  | skip => intro σ _; rfl
+  | seq p q ihp ihq =>
+    intro σ h
+    simp only [exec]
+    cases hr : (exec K p σ).raised
+    · simp only [Bool.false_eq_true, ↓reduceIte]
+      rw [ihp σ h]; exact ihq σ h
+    · simp only [↓reduceIte]; exact ihp σ h
+  | probe => intro σ _; rfl
+  | raise => intro σ _; rfl
+  | trace m body retOk ih =>
+    intro σ h
+    simp only [exec]
+    rw [ih _ (WF_setMod h m (WF_update _ (h m)))]
+    have : setMod σ m (updateAll mockDict (σ m)) m = updateAll mockDict (σ m) := by simp [setMod]
+    rw [this, restore_save _ (h m)]
+    exact setMod_same σ m _
+  | «catch» p ih => intro σ h; simp only [exec]; exact ih σ h
+
+def mockAll (act : List Nat) (σ₀ : Mods) : Mods :=
+  fun j => if j ∈ act then updateAll mockDict (σ₀ j) else σ₀ j
+
+theorem WF_mockAll {σ₀ : Mods} (h : ∀ j, WF (σ₀ j)) (act : List Nat) : ∀ j, WF (mockAll act σ₀ j) := by
+  intro j; unfold mockAll; by_cases hj : j ∈ act <;> simp [hj, h j, WF_update]
+
+theorem mockAll_cons (act : List Nat) (σ₀ : Mods) (m : Nat) :
+    setMod (mockAll act σ₀) m (updateAll mockDict (mockAll act σ₀ m)) = mockAll (m :: act) σ₀ := by
+  funext j
+  unfold setMod mockAll
+  by_cases hj : j = m
+  · subst hj
+    by_cases ha : j ∈ act <;> simp [ha, update_idem]
+  · simp [hj]
+
+theorem observe_mockAll (K : Nat) (act : List Nat) (σ₀ : Mods) :
+    observe K (mockAll act σ₀) = Spec.observe K σ₀ act := by
+  unfold observe Spec.observe view mockAll
+  apply List.map_congr_left
+  intro j _
+  by_cases ha : j ∈ act <;> simp [ha, update_val]
+
+theorem exec_denote (K : Nat) (σ₀ : Mods) (h : ∀ j, WF (σ₀ j)) (p : Prog) : ∀ act : List Nat,
+    (exec K p (mockAll act σ₀)).trace = (denote K σ₀ act p).1 ∧
+    (exec K p (mockAll act σ₀)).raised = (denote K σ₀ act p).2 := by
+  induction p with
+  | skip => intro act; simp [exec, denote]
+  | seq p q ihp ihq =>
+    intro act
+    obtain ⟨h1, h2⟩ := ihp act
+    simp only [exec, denote]
+    cases hr : (exec K p (mockAll act σ₀)).raised
+    · have hd : (denote K σ₀ act p).2 = false := by rw [← h2]; exact hr
+      have : denote K σ₀ act p = ((denote K σ₀ act p).1, false) := by rw [← hd]
+      rw [this]
+      rw [exec_mods K p _ (WF_mockAll h act)]
+      obtain ⟨g1, g2⟩ := ihq act
+      simp [h1, g1, g2]
+    · have hd : (denote K σ₀ act p).2 = true := by rw [← h2]; exact hr
+      have : denote K σ₀ act p = ((denote K σ₀ act p).1, true) := by rw [← hd]
+      rw [this]
+      simp [h1, hr]
+  | probe => intro act; simp [exec, denote, observe_mockAll]
+  | raise => intro act; simp [exec, denote]
+  | trace m body retOk ih =>
+    intro act
+    simp only [exec, denote]
+    rw [mockAll_cons]
+    obtain ⟨h1, h2⟩ := ih (m :: act)
+    rw [exec_mods K body _ (WF_mockAll h (m :: act))]
+    have hm : mockAll (m :: act) σ₀ m = updateAll mockDict (mockAll act σ₀ m) := by
+      rw [← mockAll_cons]; simp [setMod]
+    rw [hm, restore_save _ (WF_mockAll h act m)]
+    simp [h1, h2]
+  | «catch» p ih =>
+    intro act
+    obtain ⟨h1, _⟩ := ih act
+    simp [exec, denote, h1]
+
+end GuppyVerif.MockBuiltins
